@@ -20,6 +20,7 @@ observation: the log segment produced by the op, tokens
   S<i> X<i>  Start/Stop of module i entered      c<i><b> d<i><b>  module i calls next(b) (start / stop phase)
   p<i> q<i>  module i panics (recovered by ModList)   fs<b> fx<b>  finish callback of the start / stop phase
   `-` nothing happened, `noop` the module holds no `next` of that phase,
+  `undelivered` a completion handed to the application's own run service timer (via=apptimer) never ran,
   `over` (app>=1 only) the stop phase has reported success twice: the log of an App case ends with its second fxT
 
 `modeld_c11 model`: op line in, predicted observation out (uses `App.step` of the model; a plain
@@ -315,14 +316,15 @@ def specLine (s : Spec) (line : String) : Spec × String :=
             | some false => { s with trX := [], begunX := true, nX := s.nNow }
             | none => s
           else s
-        let unknown := toks.any fun t => (parseTok t).isNone && !isPanicTok t && t != "-" && t != "noop" && t != "over" && t != "panic" && t != "RX" && t != "RS" && t != "RG" && !isAddTok t
+        let unknown := toks.any fun t => (parseTok t).isNone && !isPanicTok t && t != "-" && t != "noop" && t != "over" && t != "panic" && t != "RX" && t != "RS" && t != "RG" && t != "undelivered" && !isAddTok t
         let (s, cbViolation) := procToks s "" toks
         let nowBroken := s.broken || !disciplinedB s.trS || !disciplinedB s.trX
         let r := match guard, cbViolation with
           | some g, _ => some g
           | none, some v => some v
           | none, none =>
-            if toks.contains "panic" && !nowBroken then some "C11/panic-escapes"
+            if toks.contains "undelivered" && !nowBroken then some "C11/finish-missing"
+            else if toks.contains "panic" && !nowBroken then some "C11/panic-escapes"
             else if unknown then some "C11/unreadable-log"
             else match (if s.begunS then checkPhase s true s.trS else none) with
               | some v => some v
